@@ -51,10 +51,14 @@ def stepOpt (ts : List String) : Option String :=
     | .error e => pure s!"model-failure {e}"
     | .ok r =>
       let out := if stable then r.out else canon cmp.fn r.out
-      if elem == "pod" then pure s!"out {showElems out} cw - mw - live 0"
+      -- run-time validation of the model against the specification it is proved about (stable sort)
+      let spec := C07.kMerge cmp.fn [input]
+      let okSpec := out == (if stable then spec else canon cmp.fn spec)
+      let sp := if okSpec then 1 else 0
+      if elem == "pod" then pure s!"out {showElems out} cw - mw - live 0 spec {sp}"
       else
         let live : Int := (r.constructed : Int) - r.destroyed
-        pure s!"out {showElems out} cw {showWinsN r.copyWindows} mw {showWinsI r.mergeWindows} live {live}"
+        pure s!"out {showElems out} cw {showWinsN r.copyWindows} mw {showWinsI r.mergeWindows} live {live} spec {sp}"
   | _ => none
 
 def step (_ : Unit) (ts : List String) : Unit × String :=
